@@ -7,6 +7,11 @@ import * as C04 from './C04.mjs';
 import * as C05 from './C05.mjs';
 import * as C11 from './C11.mjs';
 import * as C13 from './C13.mjs';
+import * as C16 from './C16.mjs';
+import * as C18 from './C18.mjs';
+import * as C19 from './C19.mjs';
+import * as C20 from './C20.mjs';
+import * as C02 from './C02.mjs';
 
 export const id = 'C08';
 
@@ -15,7 +20,7 @@ export function* generate({ tier, seed }) {
   yield* C07.workload({ tier, seed, prefix: 'C08' });
   const rng = mulberry32(seed * 32452843 + 31);
   const keep = tier === 'quick' ? 0.25 : 0.6;
-  for (const [name, mod] of Object.entries({ C01, C03, C04, C05, C11, C13 })) {
+  for (const [name, mod] of Object.entries({ C01, C02, C03, C04, C05, C11, C13, C16, C18, C19, C20 })) {
     for (const g of mod.generate({ tier, seed })) {
       if (rng() > keep) continue;
       const { spec, ...rest } = g;
@@ -80,7 +85,7 @@ export async function check(group, records) {
 
 export function meta({ tier }) {
   return {
-    rule: 'Union workload: the C07 workload (odd forms x option combinations, grammar sampler, fixtures + token mutations, adversarial cyclic/unresolvable types, malformed directives, nesting to depth 512, very long attribute/child lists, real-world TSX) plus a sample of the semantic generators\' modules (C01, C03, C04, C05, C11, C13). Per execution: catch_unwind + process exit status (a dying worker is bisected, rerun twice alone, and compared with the same pipeline without the visitor), and the case is transformed three times (fresh Globals, fresh Globals again, a long-lived Globals that has already issued thousands of marks) with byte comparison of the final text and of the diagnostics; hook gauge: recursion depth of the four type resolvers. Adversarial cases tagged malformed-directive / unresolvable-type must end with >= 1 error diagnostic. distinct_nontrivial = distinct (input, options) the parser accepts.',
+    rule: 'Union workload: the C07 workload (odd forms x option combinations, grammar sampler, fixtures + token mutations, adversarial cyclic/unresolvable types, malformed directives, nesting to depth 512, very long attribute/child lists, real-world TSX) plus a sample of the semantic generators\' modules (C01-C05, C11, C13, C16, C18, C19, C20). Per execution: catch_unwind + process exit status (a dying worker is bisected, rerun twice alone, and compared with the same pipeline without the visitor), and the case is transformed three times (fresh Globals, fresh Globals again, a long-lived Globals that has already issued thousands of marks) with byte comparison of the final text and of the diagnostics; hook gauge: recursion depth of the four type resolvers. Adversarial cases tagged malformed-directive / unresolvable-type must end with >= 1 error diagnostic. distinct_nontrivial = distinct (input, options) the parser accepts.',
     assumptions: ['domain = inputs that the same pipeline without the visitor survives', 'a watchdog firing that does not reproduce as a crash is inconclusive', 'fresh-process determinism is covered by the separate processes of the 16 shards and of the thorough tier\'s second pass'],
   };
 }
